@@ -188,27 +188,6 @@ Definition call_marshal_fn (f : string) (x : val) : val :=
   else if String.eqb f "time.Duration" then x
   else VOpaque "call" f.
 
-Fixpoint heval (T : table) (t : ty) (v : val) (e : hexpr) : val :=
-  match e with
-  | HPath p => match vget T t v p with Some (_, x) => x | None => VNil end
-  | HNilE => VNil
-  | HCall f e' => call_marshal_fn f (heval T t v e')
-  end.
-
-Definition run_assigns (T : table) (t : ty) (v : val) (l : list hassign) : val :=
-  fold_left (fun acc a => vset T t acc (fst a) (heval T t acc (snd a))) l v.
-
-Definition run_stmt (T : table) (t : ty) (v : val) (s : hstmt) : val :=
-  match s with
-  | HAssign l r => vset T t v l (heval T t v r)
-  | HIfLenPos p body =>
-    match vget T t v p with Some (_, VRef _ (_ :: _)) => run_assigns T t v body | _ => v end
-  | HIfNotNil p body =>
-    match vget T t v p with Some (_, VNil) => v | Some _ => run_assigns T t v body | None => v end
-  end.
-Definition run_stmts (T : table) (t : ty) (v : val) (l : list hstmt) : val :=
-  fold_left (run_stmt T t) l v.
-
 (* ---------------------------------------------------------------------------------------- omitempty *)
 Definition is_empty (v : val) : bool :=
   match v with
@@ -290,6 +269,263 @@ Definition opaque_json (n : string) (payload : string) : json :=
   then match string_to_Z payload with Some z => JStr (fmt_duration z) | None => JOpaque n payload end
   else JOpaque n payload.
 
+(* functions called on the unmarshal side of the hooks *)
+Definition call_unmarshal_fn (f : string) (x : val) : val :=
+  if String.eqb f "configToMetadata" then
+    (* *MetadataConfig -> api.Metadata: the string-valued entries of filter_metadata["mosn.lb"]; never nil *)
+    match x with
+    | VRef _ [(_, VStruct [VStruct [VRef _ es]])] =>
+      VRef 0 (flat_map (fun kv : string * val => match snd kv with VJson (JStr s) => [(fst kv, VStr s)] | _ => [] end) es)
+    | _ => VRef 0 []
+    end
+  else if String.eqb f "time.Duration" then x
+  else if String.eqb f "uint64" then x
+  else VOpaque "call" f.
+
+(* ------------------------------------------------------------------- hooks, compiled to field indices *)
+(* The (Un)MarshalJSON pairs extracted by the translator (s_hook / s_unhook, selector paths by name) are given their
+   meaning through a compiled form over field INDICES:
+     CShadow   marshal: for each (slot i of the embedded target, hidden field H, coder c): target.i := out_c(H);
+               marshal the target.   unmarshal: parse the target; H := in_c(target.i)
+     CChain    FilterChain: single tls_context <-> tls_context_set
+     CInline   RouterConfiguration / ClusterManagerConfig: inline list <-> hidden list when the path field is ""
+     CListener Listener: address <-> resolved address, network default
+     CJson     a marshaler the model has no rule for: the value is carried as the JSON it prints *)
+Fixpoint iget (p : list nat) (v : val) : option val :=
+  match p with
+  | [] => Some v
+  | i :: p' => match v with
+               | VStruct vs => match nth_error vs i with Some x => iget p' x | None => None end
+               | _ => None
+               end
+  end.
+Fixpoint iset (p : list nat) (x : val) (v : val) : val :=
+  match p with
+  | [] => x
+  | i :: p' => match v with
+               | VStruct vs => match nth_error vs i with
+                               | Some y => VStruct (set_nth i (iset p' x y) vs)
+                               | None => v
+                               end
+               | _ => v
+               end
+  end.
+Definition iget_d (p : list nat) (v : val) : val := match iget p v with Some x => x | None => VNil end.
+
+Inductive coder := CId (opaque : option string) | CMeta.
+Definition c_out (c : coder) (h : val) : val :=
+  match c with
+  | CId (Some n) => to_opaque n h
+  | CId None => h
+  | CMeta => call_marshal_fn "metadataToConfig" h
+  end.
+Definition c_in (c : coder) (x : val) : val :=
+  match c with
+  | CId _ => x
+  | CMeta => call_unmarshal_fn "configToMetadata" x
+  end.
+
+Record shadow := mkSh { sh_tgt : nat; sh_pairs : list (nat * nat * coder) }.   (* (slot in target, hidden field, coder) *)
+
+Inductive chook :=
+| CNone
+| CShadow (sh : shadow)
+| CChain (tgt ctxs single set : nat)
+| CInline (tgt hidden pathf inlf : nat)
+| CListener (tgt addr addrcfg network perconn : nat)
+| CJson
+| CBad.
+
+Definition sh_out (sh : shadow) (v : val) : option val :=
+  iget [sh_tgt sh]
+       (fold_left (fun acc p => let '(i, H, c) := p in
+                                match iget [H] v with Some h => iset [sh_tgt sh; i] (c_out c h) acc | None => acc end)
+                  (sh_pairs sh) v).
+Definition sh_in (sh : shadow) (z sub : val) : val :=
+  let v0 := iset [sh_tgt sh] sub z in
+  fold_left (fun acc p => let '(i, H, c) := p in
+                          match iget [i] sub with Some x => iset [H] (c_in c x) acc | None => acc end)
+            (sh_pairs sh) v0.
+
+Definition chain_out (tgt ctxs single set : nat) (v : val) : option val :=
+  match iget [ctxs] v with
+  | Some (VRef r (e :: es)) => iget [tgt] (iset [tgt; set] (VRef r (e :: es)) (iset [tgt; single] VNil v))
+  | _ => iget [tgt] v
+  end.
+Definition chain_in (tgt ctxs single set : nat) (zctx : val) (z sub : val) : option val :=
+  let v0 := iset [tgt] sub z in
+  match iget [set] sub with
+  | Some (VRef _ (e :: es)) =>
+    match iget [single] sub with
+    | Some (VRef _ _) => None                                      (* ErrDuplicateTLSConfig *)
+    | _ => Some (iset [ctxs] (VRef 0 (e :: es)) v0)
+    end
+  | _ =>
+    match iget [single] sub with
+    | Some (VRef _ [(_, p)]) => Some (iset [ctxs] (VRef 0 [("", p)]) v0)
+    | _ => Some (iset [ctxs] (VRef 0 [("", zctx)]) v0)
+    end
+  end.
+
+Definition inline_out (tgt hidden pathf inlf : nat) (v : val) : option val :=
+  match iget [tgt; pathf] v with
+  | Some (VStr "") => iget [tgt] (iset [tgt; inlf] (iget_d [hidden] v) v)
+  | _ => iget [tgt] v                                              (* path mode: items go to files *)
+  end.
+Definition inline_in (tgt hidden pathf inlf : nat) (z sub : val) : option val :=
+  match iget [pathf] sub with
+  | Some (VStr "") =>
+    match iget [inlf] sub with
+    | Some (VRef r (e :: es)) => Some (iset [hidden] (VRef r (e :: es)) (iset [tgt] sub z))
+    | _ => Some (iset [tgt] sub z)
+    end
+  | _ => None                                                      (* path mode (reads the directory): not modelled here *)
+  end.
+
+Definition listener_out (tgt addr addrcfg : nat) (v : val) : option val :=
+  match iget [addr] v with
+  | Some (VOpaque _ s) => iget [tgt] (iset [tgt; addrcfg] (VStr s) v)
+  | _ => iget [tgt] v
+  end.
+Definition listener_in (tgt addr addrcfg network perconn : nat) (z sub : val) : option val :=
+  match iget [addrcfg] sub, iget [network] sub with
+  | Some (VStr a), Some (VStr nw) =>
+    if String.eqb a "" then None                                   (* ErrNoAddrListener *)
+    else
+      let nw' := lower (if String.eqb nw "" then "tcp" else nw) in
+      if (String.eqb nw' "tcp" || String.eqb nw' "udp" || String.eqb nw' "unix")%bool then
+        (* the address is assumed to be in resolved form: Resolve*Addr(a).String() = a *)
+        Some (iset [perconn] (VInt 32768) (iset [addr] (VOpaque "net.Addr" a) (iset [tgt] (iset [network] (VStr nw') sub) z)))
+      else None                                                    (* ErrUnsupportNetwork *)
+  | _, _ => None
+  end.
+
+(* e = HPath p  or  HCall f (HPath p) *)
+Definition simple_rhs (e : hexpr) : option (option string * list string) :=
+  match e with
+  | HPath p => Some (None, p)
+  | HCall f (HPath p) => Some (Some f, p)
+  | _ => None
+  end.
+
+Definition fidx (fs : list field) (name : string) : option nat :=
+  match field_index fs name 0 with Some (i, _) => Some i | None => None end.
+Definition struct_of_ty (T : table) (t : ty) : option sdesc :=
+  match t with TNamed n => find_struct T n | _ => None end.
+Definition field_ty (sd : sdesc) (i : nat) : ty :=
+  match nth_error (s_fields sd) i with Some fd => f_ty fd | None => TOpaque "missing" end.
+
+Definition compile_pair (T : table) (sd : sdesc) (xname : string) (tfields : list field) (s : hstmt) : option (nat * nat * coder) :=
+  match s with
+  | HAssign (x :: slot :: rest) rhs =>
+    match simple_rhs rhs with
+    | Some (f, [h]) =>
+      match fidx tfields slot, fidx (s_fields sd) h, field_index tfields slot 0 with
+      | Some i, Some H, Some (_, sfd) =>
+        if String.eqb x xname then
+          match f_ty sfd, rest, f with
+          | TOpaque n, _ :: _, None => Some (i, H, CId (Some n))
+          | TOpaque n, _ :: _, Some g => if String.eqb g "time.Duration" then Some (i, H, CId (Some n)) else None
+          | _, [], None => Some (i, H, CId None)
+          | _, [], Some g => if String.eqb g "metadataToConfig" then Some (i, H, CMeta) else None
+          | _, _, _ => None
+          end
+        else None
+      | _, _, _ => None
+      end
+    | _ => None
+    end
+  | _ => None
+  end.
+
+Fixpoint sequence_opt {A} (l : list (option A)) : option (list A) :=
+  match l with
+  | [] => Some []
+  | Some x :: l' => match sequence_opt l' with Some r => Some (x :: r) | None => None end
+  | None :: _ => None
+  end.
+
+Definition hook_compiled (T : table) (sd : sdesc) : chook :=
+  match s_hook sd, s_unhook sd with
+  | HkNone, UkNone => CNone
+  | HkCustom, UkCustom => CJson
+  (* FilterChain *)
+  | HkShadow [HIfLenPos [c] [([t1; p], HNilE); ([t2; s], HPath [c'])]] [t3], UkShadow [t4] [] (S _) =>
+    if (String.eqb c c' && String.eqb t1 t2 && String.eqb t2 t3 && String.eqb t3 t4)%bool then
+      match fidx (s_fields sd) t3, fidx (s_fields sd) c with
+      | Some X, Some C =>
+        match struct_of_ty T (field_ty sd X) with
+        | Some tsd => match fidx (s_fields tsd) p, fidx (s_fields tsd) s with
+                      | Some P, Some S' => CChain X C P S'
+                      | _, _ => CBad
+                      end
+        | None => CBad
+        end
+      | _, _ => CBad
+      end
+    else CBad
+  (* Listener *)
+  | HkShadow [HIfNotNil [a] [([t1; ac], HCall call (HPath [a']))]] [t2], UkShadow [t3] _ (S _) =>
+    if (String.eqb a a' && String.eqb t1 t2 && String.eqb t2 t3 && String.eqb call ".String")%bool then
+      match fidx (s_fields sd) t2, fidx (s_fields sd) a, fidx (s_fields sd) "PerConnBufferLimitBytes" with
+      | Some X, Some A, Some PC =>
+        match struct_of_ty T (field_ty sd X) with
+        | Some tsd => match fidx (s_fields tsd) ac, fidx (s_fields tsd) "Network" with
+                      | Some AC, Some NW => CListener X A AC NW PC
+                      | _, _ => CBad
+                      end
+        | None => CBad
+        end
+      | _, _, _ => CBad
+      end
+    else CBad
+  (* RouterConfiguration / ClusterManagerConfig *)
+  | HkDirMode [t1; pf] [HAssign [t2; inlf] (HPath [hid])] [t3], UkShadow [t4] _ _ =>
+    if (String.eqb t1 t2 && String.eqb t2 t3 && String.eqb t3 t4)%bool then
+      match fidx (s_fields sd) t3, fidx (s_fields sd) hid with
+      | Some X, Some Hd =>
+        match struct_of_ty T (field_ty sd X) with
+        | Some tsd => match fidx (s_fields tsd) pf, fidx (s_fields tsd) inlf with
+                      | Some PF, Some IN => CInline X Hd PF IN
+                      | _, _ => CBad
+                      end
+        | None => CBad
+        end
+      | _, _ => CBad
+      end
+    else CBad
+  (* shadow-field pairs *)
+  | HkShadow pre [t1], UkShadow [t2] _ O =>
+    if String.eqb t1 t2 then
+      match fidx (s_fields sd) t1 with
+      | Some X =>
+        let tfields := match struct_of_ty T (field_ty sd X) with Some tsd => s_fields tsd | None => [] end in
+        match sequence_opt (map (compile_pair T sd t1 tfields) pre) with
+        | Some pairs => CShadow (mkSh X pairs)
+        | None => CBad
+        end
+      | None => CBad
+      end
+    else CBad
+  | _, _ => CBad
+  end.
+
+(* what a hooked struct value hands to the encoder: (type, value) of the embedded target *)
+Definition hook_out (T : table) (sd : sdesc) (h : chook) (v : val) : option (ty * val) :=
+  match h with
+  | CShadow sh => option_map (pair (field_ty sd (sh_tgt sh))) (sh_out sh v)
+  | CChain tgt ctxs single set => option_map (pair (field_ty sd tgt)) (chain_out tgt ctxs single set v)
+  | CInline tgt hidden pathf inlf => option_map (pair (field_ty sd tgt)) (inline_out tgt hidden pathf inlf v)
+  | CListener tgt addr addrcfg _ _ => option_map (pair (field_ty sd tgt)) (listener_out tgt addr addrcfg v)
+  | _ => None
+  end.
+Definition hook_tgt (h : chook) : option nat :=
+  match h with
+  | CShadow sh => Some (sh_tgt sh)
+  | CChain tgt _ _ _ | CInline tgt _ _ _ | CListener tgt _ _ _ _ => Some tgt
+  | _ => None
+  end.
+
 (* --------------------------------------------------------------------------------------------- encode *)
 Definition splice (name : string) (embed : bool) (j : json) : list (string * json) :=
   match embed, j with
@@ -331,32 +567,19 @@ Fixpoint encode (T : table) (fuel : nat) (t : ty) (v : val) {struct fuel} : json
     | TNamed n, VJson j =>
       (* a struct with a marshaler the model has no rule for, carried as the JSON the real marshaler printed *)
       match find_struct T n with
-      | Some sd => match s_hook sd with HkCustom => j | _ => JFuel (vsecrets v) end
+      | Some sd => match hook_compiled T sd with CJson => j | _ => JFuel (vsecrets v) end
       | None => JFuel (vsecrets v)
       end
     | TNamed n, VStruct vs =>
       match find_struct T n with
       | None => JFuel (vsecrets v)
       | Some sd =>
-        match s_hook sd with
-        | HkNone => JObj (enc_fields (encode T fuel') (s_fields sd) vs)
-        | HkShadow pre tgt =>
-          match vget T t (run_stmts T t v pre) tgt with
-          | Some (t2, v2) => encode T fuel' t2 v2
-          | None => JFuel (vsecrets v)
-          end
-        | HkDirMode pathf pre tgt =>
-          let v1 := match vget T t v pathf with Some (_, VStr "") => run_stmts T t v pre | _ => v end in
-          match vget T t v1 tgt with
-          | Some (t2, v2) => encode T fuel' t2 v2
-          | None => JFuel (vsecrets v)
-          end
-        | HkPromoted f =>
-          match vget T t v [f] with
-          | Some (t2, v2) => encode T fuel' t2 v2
-          | None => JFuel (vsecrets v)
-          end
-        | HkCustom => JFuel (vsecrets v)
+        match hook_compiled T sd with
+        | CNone => JObj (enc_fields (encode T fuel') (s_fields sd) vs)
+        | h => match hook_out T sd h v with
+               | Some (t2, v2) => encode T fuel' t2 v2
+               | None => JFuel (vsecrets v)
+               end
         end
       end
     | _, _ => JFuel (vsecrets v)
@@ -447,27 +670,6 @@ Fixpoint sequence {A} (l : list (option A)) : option (list A) :=
   | o :: l' => option_bind o (fun x => option_bind (sequence l') (fun r => Some (x :: r)))
   end.
 
-Definition call_unmarshal_fn (f : string) (x : val) : val :=
-  if String.eqb f "configToMetadata" then
-    (* *MetadataConfig -> api.Metadata: the string-valued entries of filter_metadata["mosn.lb"]; never nil *)
-    match x with
-    | VRef _ [(_, VStruct [VStruct [VRef _ es]])] =>
-      VRef 0 (flat_map (fun kv : string * val => match snd kv with VJson (JStr s) => [(fst kv, VStr s)] | _ => [] end) es)
-    | _ => VRef 0 []
-    end
-  else if String.eqb f "time.Duration" then x
-  else if String.eqb f "uint64" then x
-  else VOpaque "call" f.
-
-Fixpoint huneval (T : table) (t : ty) (v : val) (e : hexpr) : val :=
-  match e with
-  | HPath p => match vget T t v p with Some (_, x) => x | None => VNil end
-  | HNilE => VNil
-  | HCall f e' => call_unmarshal_fn f (huneval T t v e')
-  end.
-Definition run_derive (T : table) (t : ty) (v : val) (l : list hassign) : val :=
-  fold_left (fun acc a => vset T t acc (fst a) (huneval T t acc (snd a))) l v.
-
 Fixpoint decode (T : table) (fuel : nat) (t : ty) (j : json) {struct fuel} : option val :=
   match fuel with
   | O => None
@@ -500,8 +702,10 @@ Fixpoint decode (T : table) (fuel : nat) (t : ty) (j : json) {struct fuel} : opt
       match find_struct T n with
       | None => None
       | Some sd =>
-        match s_hook sd, s_unhook sd with
-        | HkNone, UkNone =>
+        let z := zero_val T fuel t in
+        let sub_of (tgt : nat) := decode T fuel' (field_ty sd tgt) j in
+        match hook_compiled T sd with
+        | CNone =>
           match j with
           | JNull => Some (zero_val T fuel t)
           | JObj kvs =>
@@ -515,15 +719,14 @@ Fixpoint decode (T : table) (fuel : nat) (t : ty) (j : json) {struct fuel} : opt
               (fun vs => Some (VStruct vs))
           | _ => None
           end
-        | HkShadow _ _, UkShadow tgt derive O =>
-          (* json.Unmarshal(b, &recv.tgt); derive... *)
-          let z := zero_val T fuel t in
-          match vget T t z tgt with
-          | Some (t2, _) =>
-            option_bind (decode T fuel' t2 j) (fun sub => Some (run_derive T t (vset T t z tgt sub) derive))
-          | None => None
-          end
-        | _, _ => None
+        | CJson => Some (VJson j)
+        | CShadow sh => option_bind (sub_of (sh_tgt sh)) (fun sub => Some (sh_in sh z sub))
+        | CChain tgt ctxs single set =>
+          let zctx := match field_ty sd ctxs with TSlice te => zero_val T fuel' te | _ => VNil end in
+          option_bind (sub_of tgt) (chain_in tgt ctxs single set zctx z)
+        | CInline tgt hidden pathf inlf => option_bind (sub_of tgt) (inline_in tgt hidden pathf inlf z)
+        | CListener tgt addr addrcfg network perconn => option_bind (sub_of tgt) (listener_in tgt addr addrcfg network perconn z)
+        | CBad => None
         end
       end
     | _, _ => None
